@@ -89,6 +89,18 @@ CLAIMED = {
                 "of evaluate() calls, the recorded DAG is acyclic and its edges are exactly the producer->consumer/picker dependencies.",
         "note": "Trusted: Coq kernel; hand-written model Model/Lazy.v; full_output=True dicts and lazy+cache covered by correspondence only.",
     },
+    "C06": {
+        "design_ref": "DESIGN.md section 5 / C06",
+        "technique": "Coq proof over a model of runs on an existing store with fixed_indices selections and of the learners (selection = product of per-axis index sets; parts partition the index space; pieces leave the whole store) + partition/order correspondence",
+        "text": "The NumPy-assignment mask of _mask_fixed_axes equals the declarative product of per-axis index sets (ints, negative ints, slices incl. negative "
+                "steps); parts that partition an independent axis cover every position exactly once; a part computes exactly its selected missing elements; "
+                "for one function any order of covering requests (and the learner sequences) leaves literally the full run's store with no call duplicated; a "
+                "full run on any sub-store of the full store ends with the full outputs and a final run computes nothing; bad requests are rejected before any "
+                "call. Real map(fixed_indices=...) parts in all orders and create_learners (with/without split_independent_axes) are compared per part. "
+                "Three defects repaired.",
+        "note": "Trusted: Coq kernel; hand-written Model/MapResume.v (linked to the C01 model by per-run evaluation, not by proof); pipeline-level pieces_eq_whole assumes "
+                "completion and order_ok; reduced/out-of-range rejection stated against the model's own axes functions; CPython slice table re-checked per run.",
+    },
     "C07": {
         "design_ref": "DESIGN.md section 5 / C07",
         "technique": "Coq refinement proof (FileArray and DictArray models refine a masked n-d array, by induction over operation sequences) + per-run differential correspondence",
@@ -185,3 +197,9 @@ CLAIMED = {
 }
 
 NOT_YET = "not claimed yet: model/proofs for this property are not built in this revision (see DESIGN.md section 9 build order)"
+
+# properties whose check exists but is temporarily not claimed (reason goes to MANIFEST.not_applicable)
+SUSPENDED = {
+    "C04": "temporarily not claimed: the C04 model is being reconciled with later fix: commits on /repo (tolerant DictArray.load, atomic writes); check and theorems exist (see DESIGN.md)",
+    "C12": "temporarily not claimed: the C12 translator table/model is being reconciled with later fix: commits on /repo (atomic run_info.json written last); check and theorems exist (see DESIGN.md)",
+}
